@@ -15,8 +15,9 @@ Lemma closed_serves_nothing_l : forall m, In m methods ->
 Proof.
   intros m Hin. pose proof all_methods_ok as H. rewrite forallb_forall in H. specialize (H m Hin).
   unfold meth_ok in H. apply andb_true_iff in H as [Ha Hb]. split.
-  - intros He Ht. rewrite He, Ht in Ha. simpl in Ha. now apply orb_true_iff in Ha.
-  - intros Ho. now rewrite Ho in Hb.
+  - intros He Ht. rewrite He, Ht in Ha. change (negb true) with false in Ha. rewrite !orb_false_l in Ha.
+    apply orb_true_iff in Ha. exact Ha.
+  - intros Ho. rewrite Ho in Hb. exact Hb.
 Qed.
 
 
@@ -62,3 +63,49 @@ Lemma rm_file_and_parent_refused_l :
   rm_refused 10 VZip (view_index VZip (zip_entries w_tree)) [[100]] = true /\
   rm_refused 10 VTar (view_index VTar (zip_entries w_tree)) [[100]] = true.
 Proof. vm_compute. repeat split; reflexivity. Qed.
+
+(* ---------------------------------------------------------------- the walker writes the entries of its item list *)
+Fixpoint witems (rel : path) (n : node) : list item :=
+  match n with
+  | File c mt => [(rel, KFile c (sec mt))]
+  | Dir mt kids => (rel, KDir (sec mt)) :: flat_map (fun k => witems (rel ++ [fst k]) (snd k)) kids
+  end.
+Definition tree_items (t : tree) : list item := flat_map (fun k => witems [fst k] (snd k)) t.
+
+Fixpoint node_ind2 (P : node -> Prop) (Hf : forall c mt, P (File c mt))
+  (Hd : forall mt kids, Forall (fun k => P (snd k)) kids -> P (Dir mt kids)) (n : node) : P n :=
+  match n with
+  | File c mt => Hf c mt
+  | Dir mt kids => Hd mt kids ((fix go (l : list (name * node)) : Forall (fun k => P (snd k)) l :=
+                                  match l with
+                                  | [] => Forall_nil _
+                                  | k :: r => Forall_cons k (node_ind2 P Hf Hd (snd k)) (go r)
+                                  end) kids)
+  end.
+
+Lemma walk_items n : forall rel, walk rel n = map entry_of (witems rel n).
+Proof.
+  induction n as [c mt|mt kids IH] using node_ind2; intros rel; [reflexivity|].
+  simpl. unfold entry_of at 1. simpl. f_equal.
+  induction kids as [|k r IHr]; [reflexivity|]. inversion IH; subst. simpl. rewrite map_app. f_equal; [apply H1|now apply IHr].
+Qed.
+
+Lemma zip_entries_items t : zip_entries t = map entry_of (tree_items t).
+Proof.
+  unfold zip_entries, tree_items. induction t as [|k r IH]; [reflexivity|]. simpl. rewrite map_app, walk_items. now f_equal.
+Qed.
+
+(* a concrete tree whose items are well placed (non-vacuity of the premise of the round-trip theorem) *)
+Definition w_tree2 : tree :=
+  [ ([97; 46; 46; 98], File [1; 2; 3] 5500000000);
+    ([100], Dir 7999999999 [ ([102], File [] 1000000000); ([46; 46; 46], Dir 3000000000 [ ([46; 46; 120], File [9] 2000000001) ]) ]) ].
+Lemma w_tree2_wf : wf_seq [] (tree_items w_tree2).
+Proof.
+  assert (L : forall c, (c <> [] /\ ~ In slash c /\ c <> [dot] /\ c <> [dot; dot]) -> legal c) by (intros c H; exact H).
+  simpl. unfold wf_item. simpl.
+  repeat split; try discriminate;
+    try (repeat constructor; apply L; repeat split; try discriminate; intros H; repeat (destruct H as [H|H]; [discriminate H|]); exact H);
+    try (intros H; repeat (destruct H as [H|H]; [discriminate H|]); exact H);
+    try (intros j Hj; simpl in Hj; destruct j as [|[|[|j]]]; try lia; simpl; eexists; eauto 10);
+    try (match goal with Hx : (0 < _ < 1)%nat |- False => lia end).
+Qed.
